@@ -657,7 +657,106 @@ def replay_atype(cases, F, mon):
     return executed
 
 
+def record(seed, n, out_path):
+    """random larger vector operations recorded as Trace_Vector events"""
+    import random
+    rnd = random.Random(seed)
+    evs = []
+    comp = lambda: rnd.choice([NONEI, NONEI] + list(range(-50, 51)))      # noqa: E731
+    step = lambda: rnd.choice([NONEI, NONEI, 1, 2, 3, 7, -1, -2, -5, 40, -40])      # noqa: E731
+    for eid in range(1, n + 1):
+        kind = rnd.choice(["slice", "slice", "mask", "assign", "assign", "elem", "na"])
+        ln = rnd.choice([0, 1, 2, 5, 13, 40])
+        if kind == "slice":
+            s_, e_, st_ = comp(), comp(), step()
+            v = Vector(list(range(ln)))
+            tgt = rnd.choice(["vector", "table"])
+            if tgt == "vector" or ln == 0:
+                st, r, ex = attempt(lambda: list(v[slice(ival(s_), ival(e_), ival(st_))]))
+            else:
+                t = Table({"p": list(range(ln)), "q": ["x"] * ln})
+
+                def rowsel():
+                    r_ = t[slice(ival(s_), ival(e_), ival(st_))]
+                    return [row[0] for row in table_rows(r_)] if isinstance(r_, Table) else []
+                st, r, ex = attempt(rowsel)
+            evs.append({"id": eid, "op": "slice", "n": ln, "s": s_, "e": e_, "st": st_, "idx": r if st == "ok" else [-5], "on": tgt})
+        elif kind == "mask":
+            mask = [rnd.random() < 0.4 for _ in range(ln)]
+            v = Vector(list(range(ln)))
+            key = list(mask) if rnd.random() < 0.5 else (Vector(list(mask)) if mask else list(mask))
+            if not mask:
+                continue
+            st, r, ex = attempt(lambda: list(v[key]))
+            evs.append({"id": eid, "op": "mask", "mask": mask, "idx": r if st == "ok" else [-5]})
+        elif kind == "assign":
+            ln = rnd.choice([1, 2, 5, 13])
+            form = rnd.choice(["int", "slice", "mask", "list"])
+            if form == "int":
+                key = ["int", rnd.randint(-ln - 2, ln + 1)]
+            elif form == "slice":
+                key = ["slice", comp(), comp(), step()]
+            elif form == "mask":
+                key = ["mask", [rnd.random() < 0.5 for _ in range(rnd.choice([ln, ln, ln, ln + 1]))]]
+            else:
+                key = ["list", [rnd.randint(-ln - 1, ln) for _ in range(rnd.randint(1, 4))]]
+            # number of addressed positions (python semantics), to build right / wrong-length values
+            try:
+                if form == "int":
+                    npos = 1
+                elif form == "slice":
+                    npos = len(range(ln)[slice(ival(key[1]), ival(key[2]), ival(key[3]))])
+                elif form == "mask":
+                    npos = sum(key[1])
+                else:
+                    npos = len(key[1])
+            except Exception:      # noqa: BLE001
+                npos = 1
+            if form == "int" or rnd.random() < 0.4:
+                value = ["scalar", 7]
+            else:
+                m = max(0, npos + rnd.choice([0, 0, 0, 1, -1]))
+                value = ["seq", [20 + k for k in range(1, m + 1)]]
+            v = Vector(list(range(11, 11 + ln)), name="nm")
+            k = mk_key(key, rnd.randint(0, 2) if form == "list" else rnd.randint(0, 1))
+            val = 7 if value[0] == "scalar" else [list, tuple, Vector][rnd.randint(0, 2)](value[1]) if value[1] else list(value[1])
+
+            def do():
+                v[k] = val
+            st, _, ex = attempt(do)
+            evs.append({"id": eid, "op": "assign", "n": ln, "key": key, "value": value, "ok": st == "ok", "contents": list(v),
+                        "err": type(ex).__name__ if ex else None})
+        elif kind == "elem":
+            mode = rnd.choice(["vv", "vs", "vl", "sv", "lv"])
+            la = 1 if mode == "sv" else ln
+            lb = 1 if mode == "vs" else rnd.choice([ln, ln, ln, ln + 1, max(0, ln - 1)])
+            if mode == "sv":
+                lb = ln
+            na = sorted(set(rnd.sample(range(1, la + 1), rnd.randint(0, min(la, 3))))) if mode != "sv" else []
+            nb = sorted(set(rnd.sample(range(1, lb + 1), rnd.randint(0, min(lb, 3))))) if mode != "vs" else []
+            lv = [None if (i + 1) in na else i + 2 for i in range(la)]
+            rv = [None if (i + 1) in nb else i + 3 for i in range(lb)]
+            L = Vector(lv) if mode in ("vv", "vs", "vl") else (lv[0] if mode == "sv" else list(lv))
+            R = Vector(rv) if mode in ("vv", "sv", "lv") else (rv[0] if mode == "vs" else list(rv))
+            fn = rnd.choice([operator.add, operator.sub, operator.mul, operator.floordiv, operator.mod])
+            st, r, ex = attempt(lambda: list(fn(L, R)))
+            evs.append({"id": eid, "op": "elem", "mode": mode, "la": la, "lb": lb, "na": na, "nb": nb, "ok": st == "ok",
+                        "nonepos": [i + 1 for i, x in enumerate(r) if x is None] if st == "ok" else [], "len": len(r) if st == "ok" else 0})
+        else:
+            vals = [rnd.choice([-1, 0, 1, 2, 3]) for _ in range(ln)]
+            if not vals or all(x == -1 for x in vals):
+                continue
+            v = Vector([None if x == -1 else x for x in vals])
+            back = lambda xs: [-1 if x is None else x for x in xs]      # noqa: E731
+            evs.append({"id": eid, "op": "na", "vals": vals, "isna": list(v.isna()), "dropna": back(v.dropna()), "fill": back(v.fillna(7))})
+    with open(out_path, "w") as f:
+        for e in evs:
+            f.write(json.dumps(e) + "\n")
+
+
 def main():
+    if sys.argv[1] == "record":
+        return record(int(sys.argv[2]), int(sys.argv[3]), sys.argv[4])
     suite, cases_path, out_path = sys.argv[2], sys.argv[3], sys.argv[4]
     cases = json.load(open(cases_path))
     F, mon = Fails(), Monitor()
